@@ -62,6 +62,17 @@ class Ctx:
             if name in im["items"]:
                 inh = im["items"][name]
         if inh is None:
+            # a method of the same name from *another* trait implemented for the type (or for a reference to it): with a
+            # by-value receiver it is preferred over a `&self` method by method resolution, silently, for every caller
+            # that has both traits in scope (`use crate::*`)
+            for im in self.pdb.impls:
+                if im.get("trait") and im["trait"] != trait and im["self_ty"] in (self_ty, "&" + self_ty, "&mut " + self_ty) and name in im["items"] and im["items"][name] != tkey:
+                    inh = im["items"][name]
+                    break
+            if inh is None:
+                for tname, tr in self.pdb.traits.items():
+                    pass
+        if inh is None:
             return
         rule = "%s.shadowing" % self.rep.prop
         inst = "%s::%s" % (short(self_ty), name)
